@@ -34,7 +34,7 @@ Definition ex_settings : Settings := {|
   iterative_refinement_static_regularization_rel := qmk 1 1048576
 |}.
 Definition ex_fault : nat -> bool := fun _ => false.
-Definition ex_sv_res : res Solver := setup consts true 0 ex_settings 1 0 1 ex_blocks.
+Definition ex_sv_res : res Solver := setup consts true false 0 ex_settings 1 0 1 ex_blocks.
 Definition ex_dummy_d : Data :=
   {| d_n := 0; d_p := 0; d_m := 0; d_P := []; d_AT := []; d_GT := []; d_c := []; d_b := []; d_h := [];
      d_lb_idx := []; d_ub_idx := []; d_lb_scaling := []; d_ub_scaling := []; d_lb_n := []; d_ub := [] |}.
